@@ -343,7 +343,7 @@ func init() {
 	add("C17", ruleR17_14)
 	add("C12", ruleR12_11, ruleR12_12)
 	add("C11", ruleR12_12)
-	add("C16", ruleR12_11)
+	add("C16", ruleR12_11, ruleR16_15)
 	for _, id := range []string{"C09", "C13", "C10", "C02", "C19"} {
 		add(id, ruleR09_17)
 	}
